@@ -170,6 +170,7 @@ type dbgWalker struct {
 	hosts   map[string]hostDecl
 	env     *val.Env
 	own     []dbgEntry // own column of the term, value
+	idents  []dbgEntry // evaluated variables: column, name
 	stopped bool
 }
 
@@ -218,6 +219,7 @@ func (w *dbgWalker) walk(e ast.Expr) bool {
 		}
 		return true
 	case *ast.IdentExpr:
+		w.idents = append(w.idents, dbgEntry{x.Col, x.Name})
 		return w.record(x, x.Col)
 	case *ast.MemberExpr:
 		return w.walk(x.Obj) && w.record(x, int(x.DBGCol))
@@ -442,6 +444,15 @@ func debugCases(eng *engine, vars []envVar, vals map[string]*val.Val, src, tag s
 		} else if shifted > 0 {
 			mc.Tags = append(mc.Tags, "dbg:shifted")
 			oracle("debug-record-shifted", fmt.Sprintf("%d value(s) are attributed to a column that is not the column of their term: own columns %s, recorded %s", shifted, showEntries(w.own), showEntries(dbg.entries)))
+		}
+		// the column of a variable is where its name stands in the (single-line) source
+		runes := []rune(src)
+		for _, id := range w.idents {
+			n := len([]rune(id.text))
+			if id.col < 0 || id.col+n > len(runes) || string(runes[id.col:id.col+n]) != id.text {
+				oracle("debug-column-not-at-term", fmt.Sprintf("variable %s is attributed to column %d of %q, where it does not stand", id.text, id.col, src))
+				break
+			}
 		}
 		if completed != (dbg.class == "ok") {
 			oracle("debug-record", fmt.Sprintf("the walk completes=%v but debug evaluation is %s", completed, dbg.class))
@@ -818,6 +829,20 @@ func init() {
 				g := &progGen{r: r, vars: dbgFamily, hosts: eng.hosts, stats: stats, sugar: true}
 				src := g.gen(targetTypes[r.Intn(len(targetTypes))], 1+r.Intn(4))
 				cs = append(cs, debugCases(eng, dbgFamily, vals, src, "prog:typed", nil)...)
+				// the same program with other white space between its tokens (no literal with
+				// quotes in it, so that only token separators change)
+				if i%5 == 0 && !strings.ContainsAny(src, "\"'`") && strings.Contains(src, " ") {
+					ws := []string{"\r", "\t", "  ", "\u00a0", "\u3000", " \r ", "\r\r"}
+					var b strings.Builder
+					for _, ch := range src {
+						if ch == ' ' && r.Intn(2) == 0 {
+							b.WriteString(ws[r.Intn(len(ws))])
+						} else {
+							b.WriteRune(ch)
+						}
+					}
+					cs = append(cs, debugCases(eng, dbgFamily, vals, b.String(), "prog:typed-ws", nil)...)
+				}
 			}
 			for i := 0; i < n/2; i++ {
 				cs = append(cs, recRenderCases(r)...)
